@@ -193,8 +193,11 @@ def step_limit(case):
 
 
 def run_calc(case, b, schd=None):
+    if schd is None:
+        # the scheduler object may have been created long before calc is called (a notebook cell run yesterday)
+        set_now(case.get('built_at') or case['now'])
+        schd = sched.scheduler(case, b)
     set_now(case['now'])
-    schd = schd or sched.scheduler(case, b)
     armed = bool(case.get('step_budget')) and steps.install()
     try:
         if armed:
@@ -274,7 +277,25 @@ def judge(prop, case, acc):
     if case.get('warm'):
         # the judged calc is the second one on the same scheduler object and the same resource objects (users re-run
         # calc after editing a plan); on correct code it equals a cold run, so every oracle applies unchanged
+        edited = case.get('warm') == 'edited-calendar'
+        if edited:
+            # between the two runs the planner edits the calendars of the resources (a holiday, shorter days): the first run
+            # sees generous calendars on the very same resource objects, the judged run the calendars of the case
+            for p_ in b.probes:
+                p_.calendar = calast.build(['weekly', {'days': [0, 1, 2, 3, 4, 5, 6], 'units': 24}])
+            acc.count('warm_runs_before_calendar_edit')
         schd, _r0, o0, _e0 = run_calc(case, b)
+        if edited:
+            for p_ in b.probes:
+                if p_.ast[0] == 'direct' and len(p_.ast) == 2 and p_.ast[1]:
+                    # a dated calendar is edited in place through its public set_units (same calendar object)
+                    from pjplan import DirectCalendar
+                    c_ = DirectCalendar({d_: 24 for d_, _u in p_.ast[1]})
+                    p_.calendar = c_
+                    run_calc(case, b, schd)
+                    c_.set_units({d_: u_ for d_, u_ in p_.ast[1]})
+                else:
+                    p_.calendar = calast.build(p_.ast)
         acc.count('warm_runs')
         b.shared['events'].clear()
         b.shared['queries'] = 0
@@ -425,6 +446,10 @@ def judge(prop, case, acc):
                 got_ = sorted(id(x) for x in getattr(rt_, kind_) if id(x) not in res_ids)
                 if want_ != got_:
                     viol('C06', f'outside-{kind_}-differ', f'task {rt_.id}: links to tasks outside the WBS differ between input and result')
+    for k, v in (case.get('wbs_attrs') or {}).items():
+        got_ = getattr(s, k, '<attribute missing>')
+        if got_ != v or type(got_) is not type(v):
+            viol('C06', 'wbs-attribute-lost', f'attribute {k} of the plan: {got_!r} != {v!r}')
     for i, t in enumerate(spec):
         rt = T.get(i)
         if rt is None:
@@ -457,6 +482,20 @@ def judge(prop, case, acc):
             acc.count('rerun_pairs_with_default_resources')
         if o3 != 'ok' or sig_of(res3) != base_sig:
             viol('C06', f"rerun-fresh-scheduler-differs/{case['dir']}", f'fresh scheduler, equal inputs: {o3}; {_sigdiff(base_sig, res3)}')
+        ends_ = [t['end'] for i, t in enumerate(spec) if t['end'] is not None and not c.ch[i]]
+        open_starts = [t['start'] for i, t in enumerate(spec) if t['start'] is not None and t['end'] is None and not c.ch[i] and not t['milestone']]
+        if fwd and ends_ and now <= day(case['date']) and all(now <= f for f in open_starts) and all(e_ <= now for e_ in ends_):
+            # completed tasks in the plan: every clock from the latest recorded end up to the project start is admissible, the
+            # boundary included (an end that equals the clock does not lie in the future)
+            alt = dict(case)
+            alt['now'] = max(ends_)
+            alt.pop('built_at', None)
+            b3 = sched.build(alt)
+            _, res4, o4, _ = run_calc(alt, b3)
+            acc.ev()
+            acc.count('clock_pairs_with_completed_tasks')
+            if o4 != 'ok' or sig_of(res4) != base_sig:
+                viol('C06', 'clock-dependence-under-D5/completed-tasks', f'clock {now} vs clock = latest recorded end {alt["now"]}: {o4}; {_sigdiff(base_sig, res4)}')
         if fwd and not any(t['end'] is not None for t in spec):
             fixed_starts = [t['start'] for i, t in enumerate(spec) if t['start'] is not None and not c.ch[i]]
             d5 = now <= day(case['date']) and all(now <= f for f in fixed_starts)
@@ -568,6 +607,19 @@ def judge(prop, case, acc):
             acc.ev()
             if [(r.resource.name, day(r.date), r.task.id, r.units) for r in f] != [(r.resource.name, r.date, r.task.id, r.units) for r in by_task[t_id]]:
                 viol('C03', 'filtered-rows-disagree', f'rows(filter task=={t_id}) differs from the rows of that task')
+        if case.get('alias_probe'):
+            # what rows() hands out is the caller's to edit; the report of this schedule must not follow
+            try:
+                mine_ = rep.rows()
+                n0_ = len(mine_)
+                if n0_:
+                    mine_.pop()
+                    mine_.reverse()
+                acc.count('rows_alias_probes')
+                if len(rep.rows()) != n0_:
+                    viol('C03', 'report-follows-edits-of-returned-rows', f'after editing the list returned by rows() the report has {len(rep.rows())} rows instead of {n0_}')
+            except (AttributeError, TypeError):
+                pass     # an immutable sequence cannot be edited: fine
         # event log == rows for probe resources
         probe_names = {p.name for p in b.probes}
         ev_rows = [(e[1], day(e[2]), e[3], e[4]) for e in events]
@@ -971,8 +1023,8 @@ def _c14_mech(case, exc):
         while tb is not None:
             last = tb.tb_frame
             tb = tb.tb_next
-        in_calendar = last is not None and last.f_code.co_filename.replace('\\', '/').endswith('pjplan/calendar.py') \
-            and last.f_code.co_name == 'get_available_units'
+        # (the innermost frame is calendar code, whatever the function is called there)
+        in_calendar = last is not None and last.f_code.co_filename.replace('\\', '/').endswith('pjplan/calendar.py')
         if in_calendar and any(a != 'missing' and has_div(a) for a in case['resources'].values()):
             return '/calendar-divisor-zero'
     return ''
@@ -1184,7 +1236,11 @@ def run_shard(prop, tier, seed, shard, nshards, budget, acc):
                     if rnd.random() < 0.6:
                         for t in case['tasks']:
                             t['resource'] = case['tasks'][0]['resource']
+            if rnd.random() < 0.25:
+                case['built_at'] = REAL(2019, 6, 1, 9, 30)
             case['warm'] = rnd.random() < 0.3
+            if case['warm'] and rnd.random() < 0.3:
+                case['warm'] = 'edited-calendar'
             case['alias_probe'] = rnd.random() < 0.1
             if prop == 'C08' and rnd.random() < 0.7:
                 case['balance'] = True
